@@ -57,13 +57,39 @@ def variantB (f : Schema → Id → Bool) (structB : List (String × Schema) →
   | .struct ps, .object props req addl => structB props req addl ps deny
   | _, _ => false
 
-/-- struct members (of a struct or a struct variant) against an object schema -/
-def structB (rec : Schema → Id → Bool) (σ : Space) (props : List (String × Schema)) (req : List String)
+/-- struct members (of a struct or a struct variant) against an object schema without a typed `additionalProperties` -/
+def structPlainB (rec : Schema → Id → Bool) (σ : Space) (props : List (String × Schema)) (req : List String)
     (addl : Additional Schema) (fields : List Field) (deny : Bool) : Bool :=
   !hasFlatten fields && nodupB (fields.map (·.wire)) &&
   (match addl with | .open_ => !deny | .closed => true | .schema _ => false) &&
   fields.all (fun p => props.any (fun q => q.1 == p.wire)) &&
   propsB rec σ fields req props
+
+/-- the members that are read by name -/
+def namedOf (fields : List Field) : List Field := fields.filter (fun p => p.rename != .flatten)
+
+/-- `additionalProperties: <schema>`: besides the named members exactly one flattened member, a map with plain string keys
+    whose value type stands for that schema; the struct is not closed -/
+def structFlatB (rec : Schema → Id → Bool) (σ : Space) (props : List (String × Schema)) (req : List String)
+    (addl : Additional Schema) (fields : List Field) (deny : Bool) : Bool :=
+  (match addl with
+   | .schema sa =>
+     !deny &&
+     (match fields.filter (fun p => p.rename == .flatten) with
+      | [e] =>
+        (match σ.get e.ty with
+         | some ⟨.map k vt, _, _⟩ => (match σ.get k with | some ⟨.string, _, _⟩ => true | _ => false) && rec sa vt
+         | _ => false)
+      | _ => false)
+   | _ => false) &&
+  nodupB ((namedOf fields).map (·.wire)) &&
+  (namedOf fields).all (fun p => props.any (fun q => q.1 == p.wire)) &&
+  propsB rec σ (namedOf fields) req props
+
+/-- struct members (of a struct or a struct variant) against an object schema -/
+def structB (rec : Schema → Id → Bool) (σ : Space) (props : List (String × Schema)) (req : List String)
+    (addl : Additional Schema) (fields : List Field) (deny : Bool) : Bool :=
+  structPlainB rec σ props req addl fields deny || structFlatB rec σ props req addl fields deny
 
 def variantsB (rec : Schema → Id → Bool) (σ : Space) (deny : Bool) (ss : List Schema) (variants : List Variant) : Bool :=
   decide (ss.length = variants.length) &&
